@@ -303,8 +303,8 @@ func queueScenario(c *ctxT, r *gen.R) {
 		} else {
 			lg.add(sx.L(sx.S("qrej"), sx.I(m)))
 		}
-		if r.Intn(6) == 0 && len(recvs) > 1 { // cancel a competing receiver at that very moment
-			i := r.Intn(len(recvs))
+		if r.Intn(6) == 0 && len(recvs) > 1 { // cancel a competing receiver at that very moment (receiver 0 always stays)
+			i := 1 + r.Intn(len(recvs)-1)
 			lg.add(sx.L(sx.S("cr"), sx.I(i*1000)))
 			recvs[i].cancel()
 		}
@@ -337,6 +337,16 @@ func queueScenario(c *ctxT, r *gen.R) {
 		time.Sleep(100 * time.Microsecond)
 	}
 	// an accepted message that no callback got although a receiver was there to take it is lost
+	// (a receiver cancelled at the end leaves only when it next calls Receive: count again)
+	time.Sleep(300 * time.Microsecond)
+	alive = 0
+	for _, cl := range recvs {
+		select {
+		case <-cl.done:
+		default:
+			alive++
+		}
+	}
 	if alive > 0 {
 		lg.mu.Lock()
 		metIDs := map[string]bool{}
